@@ -431,10 +431,10 @@ func main() {
 	g := &gen{r: lib.NewRand(fl.Seed ^ 0xc17c17c17).Fork(), kr: kr}
 	mult := 1
 	if fl.Tier == "thorough" {
-		mult = 8
+		mult = 24
 	}
-	if fl.Search {
-		mult *= 10
+	if fl.Search { // monitors only, no model: ~10x the quick budget whatever the tier
+		mult = 10
 	}
 	// corpus first: the concrete failing inputs found on the unchanged tree
 	if dir := os.Getenv("VERIF_DIR"); dir != "" {
